@@ -82,6 +82,7 @@ func (i *Interp) newInput(name string, s smt.Sort) *smt.Term {
 	n := i.inputName(name)
 	t := i.ctx.Var(n, s)
 	i.ex.inputs = append(i.ex.inputs, inputRec{name: n, t: t})
+	i.ex.vars = append(i.ex.vars, t)
 	return t
 }
 
@@ -121,6 +122,7 @@ func init() {
 				nm := fmt.Sprintf("%s[%d]", base, k)
 				t := i.ctx.Var(nm, bv8)
 				i.ex.inputs = append(i.ex.inputs, inputRec{name: nm, t: t})
+				i.ex.vars = append(i.ex.vars, t)
 				r[k] = t
 			}
 			return r
@@ -133,6 +135,7 @@ func init() {
 				nm := fmt.Sprintf("%s[%d]", base, k)
 				t := i.ctx.Var(nm, bv8)
 				i.ex.inputs = append(i.ex.inputs, inputRec{name: nm, t: t})
+				i.ex.vars = append(i.ex.vars, t)
 				ts[k] = t
 			}
 			return mkStr(ts)
@@ -179,6 +182,13 @@ func init() {
 		"StepBudget": func(i *Interp, fr *frame, fn *ssa.Function, args []value) value {
 			i.cfg.StepBudget = i.asInt(args[0], true, "vrt.StepBudget")
 			return nil
+		},
+		"Param": func(i *Interp, fr *frame, fn *ssa.Function, args []value) value {
+			n := i.concreteStr(args[0], "vrt.Param name")
+			if v, ok := i.cfg.Params[n]; ok {
+				return i.mkInt(int64(v))
+			}
+			return args[1]
 		},
 		"Settle": func(i *Interp, fr *frame, fn *ssa.Function, args []value) value {
 			i.settle()
